@@ -215,6 +215,51 @@ def worker(ctx, job):
                                         V.violation(res, "%s:%s:after-%s:%s" % (sig, op, event, classify(r)), "expected an integrity or I/O error, got %r" % r, replay)
                                 else:
                                     V.violation(res, "%s:%s:%s" % (sig, op, classify(r)), "read did not return a value: %r" % r, replay)
+    # ---- a linked entry whose target disappeared is removed (plainly / fully), then a DIFFERENT file holding the same bytes
+    # is linked: the cache must take the new link and serve the bytes again
+    if n > 0:
+        srv.call({"op": "chdir", "dir": os.path.join(base, "work")})
+        t1 = os.path.join(base, "work", "first-target")
+        t2 = os.path.join(base, "work", "second-target")
+        for how in ("remove", "remove_fully", "remove_hash", "nothing"):
+            for reuse in (False, True):
+                fsutil.wipe(cache)
+                for t_ in (t1, t2):
+                    with open(t_, "wb") as fh:
+                        fh.write(data)
+                case = {"flavour": flavour, "side": side, "n": n, "history": ["link first-target", "delete first-target" + (" and reuse its path for other bytes" if reuse else ""), how, "link second-target (same bytes)"]}
+                replay = {"engine": "seqx", "case": case}
+                sig = "link:relink-after-%s/%s:%s" % (how, side, "path-reused" if reuse else "target-gone")
+                res["evals"] += 1
+                res["distinct"].add(V.h("relink", flavour, side, n, how, reuse))
+                r0 = srv.call({"op": "link_to" + ("_sync" if s else ""), "cache": cache, "key": KEY, "target": t1})
+                os.unlink(t1)
+                if reuse:
+                    with open(t1, "wb") as fh:
+                        fh.write(ref.gen(n, 133))
+                if how == "remove":
+                    srv.call({"op": "remove" + ("_sync" if s else ""), "cache": cache, "key": KEY})
+                elif how == "remove_fully":
+                    srv.call({"op": "remove_opts" + ("_sync" if s else ""), "cache": cache, "key": KEY, "fully": True})
+                elif how == "remove_hash":
+                    srv.call({"op": "remove_hash" + ("_sync" if s else ""), "cache": cache, "sri": sri})
+                r1 = srv.call({"op": "link_to" + ("_sync" if s else ""), "cache": cache, "key": "second-key", "target": t2})
+                res["transitions"] += 3
+                V.outcome(res, "relink:%s" % classify(r1))
+                if r0.get("ok") != sri:
+                    V.violation(res, sig + ":first-link-" + classify(r0), "first link failed: %r" % r0, replay)
+                    continue
+                if how in ("remove_fully", "remove_hash"):
+                    # the address was vacated by the library itself: the new link must be taken and must work
+                    if r1.get("ok") != sri:
+                        V.violation(res, sig + ":" + classify(r1), "linking another file with the same bytes after %s failed: %r" % (how, r1), replay)
+                        continue
+                    for op_ in ("read_sync", "read_hash_sync"):
+                        r2 = srv.call({"op": op_, "cache": cache, "key": "second-key", "sri": sri})
+                        if not ("ok" in r2 and wr.data_matches(r2["ok"], data)):
+                            V.violation(res, sig + ":%s:%s" % (op_, classify(r2)), "after %s and a new link of the same bytes, %s gives %r" % (how, op_, r2), replay)
+                elif not ("ok" in r1 or "err" in r1) or r1.get("panics"):
+                    V.violation(res, sig + ":" + classify(r1), "second link did not return a value: %r" % r1, replay)
     fsutil.wipe(base)
     res["samples"].append({"flavour": flavour, "side": side, "n": n, "path_forms": list(forms), "entries": entries})
     return res
